@@ -1435,16 +1435,41 @@ func (p *Prog) renameCollision(r *Report, rule string, api, wf *ssa.Function, mu
 			if !isStringType(a.Type()) || !backwardSlice(api, a)[newName] {
 				continue
 			}
-			// find a concatenation left + "." ...
+			// find a concatenation left + "." … in the function itself or in an unexported helper that assembles the sibling path
+			type catSite struct {
+				f  *ssa.Function
+				bo *ssa.BinOp
+			}
+			var cats []catSite
 			for v := range backwardSlice(api, a) {
-				bo, ok := v.(*ssa.BinOp)
-				if !ok || bo.Op != token.ADD {
-					continue
+				if bo, ok := v.(*ssa.BinOp); ok && bo.Op == token.ADD {
+					if s, isS := constString(bo.Y); isS && s == "." {
+						cats = append(cats, catSite{api, bo})
+					}
 				}
-				if s, isS := constString(bo.Y); !isS || s != "." {
-					continue
+				if hc, ok := v.(*ssa.Call); ok {
+					if h := staticCallee(&hc.Call); h != nil && p.InModule(h) && !p.Exported(h) && len(h.Blocks) > 0 {
+						takesName := false
+						for _, ha := range hc.Call.Args {
+							if ha == ssa.Value(newName) {
+								takesName = true
+							}
+						}
+						if takesName {
+							eachInstr(h, func(b2 *ssa.BasicBlock, i2 ssa.Instruction) {
+								if bo, ok := i2.(*ssa.BinOp); ok && bo.Op == token.ADD {
+									if s, isS := constString(bo.Y); isS && s == "." {
+										cats = append(cats, catSite{h, bo})
+									}
+								}
+							})
+						}
+					}
 				}
-				z := p.zoneFlowOf(api, nil)
+			}
+			for _, ct := range cats {
+				bo := ct.bo
+				z := p.zoneFlowOf(ct.f, nil)
 				lt := z.lenTerm(bo.X)
 				if z.leq(bo, zterm{0, 1, true}, lt) {
 					r.OK(rule, p.Name(api), "sibling path well formed at top level", p.Pos(bo.Pos()), "the parent path is known non-empty where it is joined with '.'")
